@@ -915,8 +915,10 @@ class ExecutionController:
                 return
 
             if stmt_id in self.plan_id_set:
-                # Already in plan, no need to think more.
-                return
+                # Already in plan, but it must run before what is planned:
+                # move it (and, below, its dependencies) forward.
+                self.plan.remove(stmt_id)
+                self.plan_id_set.remove(stmt_id)
 
             if stmt_id in early_plan:
                 return
